@@ -93,6 +93,20 @@ def rule_deferred(ctx: Ctx) -> None:
                 forcing.append((f_, c))
     ctx.add("1-deferred", forcing[0][0] if forcing else run_m, forcing[0][1] if forcing else run_m.node, not forcing, "nothing that Pipeline._run reaches in the pipeline package forces a deferred result" if not forcing else
             f"`{norm(forcing[0][1])[:50]}` in {forcing[0][0].name} forces a deferred result while pipeline(...) is still building it: with lazy=True the functions (and everything upstream of them) run before evaluate() is called", key="nobody-forces")
+    # PipeFunc.__call__ resolves deferred arguments AFTER defaults and bound values were merged in: a deferred object that was bound
+    # (or is a default) is otherwise handed to the user function unevaluated
+    call = P.func("pipefunc._pipefunc.PipeFunc.__call__")
+    cfg_c = ctx.cfg(call)
+    forces = [n for n in cfg_c.nodes() if any(isinstance(c, ast.Call) and dotted(c.func).rsplit(".", 1)[-1] == "evaluate_lazy" and any("kwargs" in norm(a) for a in c.args) for part in header_parts(cfg_c.stmt[n]) if part is not None for c in ast.walk(part))]
+    merges = [n for n in cfg_c.nodes() if isinstance(cfg_c.stmt[n], ast.Assign) and "_bound" in norm(cfg_c.stmt[n].value) and "kwargs" in norm(cfg_c.stmt[n].value) and any(isinstance(t, ast.Name) and "kwargs" in t.id for t in cfg_c.stmt[n].targets)]
+    if forces and merges:
+        after = all(any(cfg_c.dominates(m_, f_) for m_ in merges) for f_ in forces)
+        before = any(not any(cfg_c.dominates(m_, f_) for m_ in merges) and any(m_ in cfg_c.reachable_from(f_, normal_only=True) for m_ in merges) for f_ in forces)
+        ctx.tri("1-deferred", call, cfg_c.stmt[forces[0]], after, before and not after, "deferred arguments are resolved after defaults and bound values were merged in",
+                "`evaluate_lazy(kwargs)` runs BEFORE `kwargs = defaults | kwargs | bound`: a deferred object that is bound to the function (or is one of its defaults) reaches the user function unevaluated - "
+                "evaluate() raises TypeError or computes with the wrapper object instead of its value", "order of merging and resolving not recognised", key="force-after-merge")
+    else:
+        ctx.add("1-deferred", call, call.node, None, "UNDECIDED: the merge of defaults / bound values or the resolution of deferred arguments was not found in PipeFunc.__call__", key="force-after-merge")
 
 
 def rule_memo(ctx: Ctx) -> None:
